@@ -84,7 +84,12 @@ impl Scenario for Pairs {
         cfg.obj = ((run / 16) % 2) as u8; // 1: the session decoder is built through Default
         let k = run / 2;
         let stratum = ((k % 3) as u8, ((k / 3) % 16) as u8);
-        let style = if k % 4 == 0 { Style::Mash } else { Style::Unknown };
+        let style = match k % 8 {
+            0 | 4 => Style::Mash,
+            1 => Style::Bursts,
+            2 => Style::Chords,
+            _ => Style::Unknown,
+        };
         let p = TypistParams { style, actions: marathon(run, rng.range(6, if tier == Tier::Quick { 60 } else { 150 }) as usize), stratum };
         let mut ops = type_session(rng, &cfg, &p);
         // a table-free keyboard also has the keys 00 and AA
